@@ -1066,7 +1066,7 @@ def geometry_script(rng, path, wal=0):
         L += ["copen 0 0 5 %s 0" % K(50), "cget 0", "copen 1 0 5 %s 0" % K(100), "cget 1", "copen 2 0 5 %s 0" % K(31), "cget 2",
               "copen 3 0 5 %s 0" % K(50), "cget 3"]
         how = rng.choice(["cdel", "cdel", "del"])
-        L.append("cdel 0" if how == "cdel" else "del 0 %s 0" % K(50))
+        L.append("cdel %d" % rng.choice([0, 3]) if how == "cdel" else "del 0 %s 0" % K(50))
         if rng.chance(1, 3):
             L.append("put 0 %s 0 %s 0 0" % (K(rng.choice([50, 60, 40])), hexb(rng.bytes(2))))
         for c in range(4):
